@@ -11,8 +11,8 @@ Open Scope Z_scope.
 Theorem cli_command_shape v ns t :
   exists c, cli_create v ns t = [c] /\
     c_target c = mkRef (verb_kind v) (t_name t) (t_uid t) true /\
-    c_owners c = [c_target c] /\ c_action c = verb_action v /\ c_ns c = ns /\
-    req_of c = (ns, t_name t, verb_action v).
+    c_owners c = [c_target c] /\ c_action c = verb_action v /\ c_ns c = cmd_ns v ns /\
+    req_of c = (cmd_ns v ns, t_name t, verb_action v).
 Proof. eexists. split; [reflexivity|]. repeat split. Qed.
 
 Lemma law_cli_holds v ns t : law_cli v ns t (cli_create v ns t) = true.
